@@ -24,7 +24,7 @@ def replay_binary():
     def build():
         # AddressSanitizer build: glibc notices only some double frees, the sanitizer all of them (and reads of released blocks)
         d = scratch(); ref = build_ref_objects('rp20', [REPO + '/src/core/bspline.cpp', REPO + '/src/core/fitsio.cpp', REPO + '/src/core/convolve.cpp', REPO + '/src/fitter/glam.c', REPO + '/src/fitter/splineutil.c', REPO + '/src/fitter/cholesky_solve.c', REPO + '/src/fitter/nnls.c'], sanitize=True)
-        out = os.path.join(d, 'replay_state'); run(['g++'] + GXX_FLAGS + ['-fsanitize=address,undefined', '-g', '-O1', '-I' + VERIF + '/harness', VERIF + '/harness/replay_state.cpp', '-o', out] + ref + ['-lcfitsio', '-lcholmod', '-lspqr', '-lsuitesparseconfig', '-llapack', '-lblas', '-lpthread', '-lm']); return out
+        out = os.path.join(d, 'replay_state'); run(['g++'] + GXX_FLAGS + ['-fsanitize=address,undefined', '-g', '-O1', '-I' + VERIF + '/harness', VERIF + '/harness/replay_state.cpp', '-o', out] + ref + ['-lcfitsio', '-lcholmod', '-lspqr', '-lsuitesparseconfig', '-llapack', '-lblas', '-lpthread', '-lm', '-ldl']); return out
     return once('replay_state', build)
 
 def evaluate(out, pid, cases):
